@@ -231,7 +231,7 @@ class C10Monitor(Monitor):
                         x.extra_count("C10 filter applications")
                         self.judge_level(out, parents, groups, inds, L - act_t, btr, f"LevelLimit({L}) active={act_t}", mx, fits, sp)
                 # DemeLimit on one parent
-                for lim in (1, 2, 3):
+                for lim in (0, 1, 2, 3):
                     inds = self.mk(problem, fits)
                     out = DemeLimit(lim)({parents[0]: DemeCandidates(list(inds), DemeFeatures())}, tree)
                     x.extra_count("C10 filter applications")
